@@ -16,6 +16,8 @@
           nerr = errors notified, errkind = kind of the first, pkts = frames delivered before it,
           closed = the peer saw the connection closed, late = frames/errors after the first error,
           timedout = 1: the scenario did not finish in time (inconclusive, no verdict)
+   case (14 fmt #part1 #part2 pause_ms)                         the same with a 1 s read timeout and a
+        observed (nerr errkind (pkt ...) closed timedout late)   pause in the middle of a frame
    In a res, panicked = 2 means that the harness did not run the decoder (memory guard). *)
 From Coq Require Import Arith ZArith NArith List Bool.
 From FV Require Import Lib.Sx Lib.NList Lib.BE Lib.Crc32 C02.Model C01.RunLib.
@@ -209,6 +211,35 @@ Definition check_conn (fmt : Z) (data : bytes) (obs : list sx) : verdict :=
   | _ => VBad
   end.
 
+(* case 14: a read deadline fires in the middle of a frame; whatever the timing, only frames the
+   peer really sent may be delivered, in order: the delivered packets are a prefix of the
+   frames of part1 ++ part2, exactly one error is reported and the connection is closed *)
+Fixpoint packets_prefix (a b : list packet) : bool :=
+  match a, b with
+  | [], _ => true
+  | x :: a', y :: b' => packet_eqb x y && packets_prefix a' b'
+  | _, [] => false
+  end.
+
+Definition check_timeout (fmt : Z) (data : bytes) (obs : list sx) : verdict :=
+  match obs with
+  | [SInt nerr; SInt _; SList pks; SInt closed; SInt timedout; SInt late] =>
+      if Z.eqb timedout 1 then VOk else
+      match map_opt sx_packet pks with
+      | Some got =>
+          let read := fun s => if Z.eqb fmt 1
+                               then read_packet_v1 (fun b => b) (fun _ => None) false s packet0
+                               else read_packet_v2 (fun b => b) (fun _ => None) false s packet0 in
+          let fuel := S (S (N.to_nat (lenN data / fmt_hs fmt))) in
+          let '(sent, _, _) := read_pump read fuel (one_chunk data) in
+          vall [ check_that (Z.eqb nerr 1) (VPropFail 8);
+                 check_that (Z.eqb closed 1) (VPropFail 9);
+                 check_that (Z.eqb late 0 && packets_prefix got sent) (VPropFail 10) ]
+      | None => VBad
+      end
+  | _ => VBad
+  end.
+
 Definition check (c : sx) : verdict :=
   match c with
   | SList [SList [SInt 10%Z; SInt fmt; SInt cipher; SInt _; SBytes data; chunks; SInt _; SInt expect];
@@ -231,6 +262,8 @@ Definition check (c : sx) : verdict :=
       check_damaged fmt cipher frame mode (Z.to_N lo) (Z.to_N hi) obs
   | SList [SList [SInt 12%Z; SInt fmt; SBytes template; SBytes tail; SInt lo; SInt hi]; SList obs] =>
       check_sweep fmt template tail (Z.to_N lo) (Z.to_N hi) obs
+  | SList [SList [SInt 14%Z; SInt fmt; SBytes part1; SBytes part2; SInt _]; SList obs] =>
+      if Z.eqb fmt 1 || Z.eqb fmt 2 then check_timeout fmt (part1 ++ part2) obs else VBad
   | SList [SList [SInt 13%Z; SInt fmt; SBytes data]; SList obs] =>
       if Z.eqb fmt 1 || Z.eqb fmt 2 then check_conn fmt data obs else VBad
   | _ => VBad
